@@ -1,0 +1,13 @@
+//go:build verif
+
+// Contracts for the gowp verifier (/verif): comment-only file, compiled only with -tags verif.
+package spnego
+
+//@ func spnego.UnmarshalNegToken(b) (isInit, nt, err)
+//@   pure
+//@   ensures err == nil && isInit ==> tagof(nt) == typeid("spnego.NegTokenInit")
+//@   ensures err == nil && !isInit ==> tagof(nt) == typeid("spnego.NegTokenResp")
+
+// The credentials value read back from the context was stored under the same key by KRB5Token.Verify on the
+// path that set authed; context.Context is external and its Value/WithValue pairing is not modelled.
+//@ assume_obligation spnego.SPNEGOKRB5Authenticate$1#typeassert:id := ctx.Value(ctxCredentials).(*credentials.Credentials) :: context.WithValue/Value pairing of the stdlib is not modelled
